@@ -73,12 +73,12 @@ def run(lane, mfile, lo, hi):
         src[m["line"] - 1] = m["new"]
         open(path, "w").write("\n".join(src))
         t0 = time.time()
-        rc, out = sh("cargo +1.80.1 build --offline -p tvadapter 2>&1 | tail -3", verif + "/engine", env)
-        if "error" in out and "Finished" not in out:
+        rc, out = sh("cargo +1.80.1 build --offline -p tvadapter", verif + "/engine", env)
+        if rc != 0:
             print("\t".join([m["id"], m["file"], str(m["line"]), "NOCOMPILE", "", m["new"].strip()[:100]]), file=log, flush=True); continue
         verdict, by = "SURVIVED", ""
         for c in ORDER:
-            rc, out = sh("./check %s --tier quick 2>&1 | tail -3" % c, verif, env)
+            rc, out = sh("./check %s --tier quick" % c, verif, env)
             if rc == 1:
                 verdict, by = "DETECTED", c; break
             if rc != 0:
